@@ -234,3 +234,73 @@ impl<T> SegQueue<T> {
         ensures queued(self, value),
     { unimplemented!() }
 }
+
+// ---------------------------------------------------------------- std functions without a vstd specification (assumed: their std definitions)
+pub assume_specification<T: core::marker::Destruct> [Option::<T>::or] (a: Option<T>, b: Option<T>) -> (r: Option<T>)
+    ensures r == (if a is Some { a } else { b });
+pub assume_specification<T: core::marker::Destruct, U: core::marker::Destruct> [Option::<T>::and] (a: Option<T>, b: Option<U>) -> (r: Option<U>)
+    ensures r == (if a is Some { b } else { None::<U> });
+pub assume_specification<T: core::marker::Destruct> [Option::<T>::xor] (a: Option<T>, b: Option<T>) -> (r: Option<T>)
+    ensures r == (if a is Some && b is None { a } else if a is None && b is Some { b } else { None::<T> });
+pub assume_specification<T: core::marker::Destruct, P: FnOnce(&T) -> bool + core::marker::Destruct> [Option::<T>::filter] (a: Option<T>, p: P) -> (r: Option<T>)
+    requires a matches Some(v) ==> p.requires((&v,)),
+    ensures
+        a is None ==> r is None,
+        a matches Some(v) ==> (p.ensures((&v,), true) ==> r == a) && (p.ensures((&v,), false) ==> r is None) && (r is None || r == a);
+pub assume_specification<T, U: core::marker::Destruct, F: FnOnce(T) -> U + core::marker::Destruct> [Option::<T>::map_or] (a: Option<T>, d: U, f: F) -> (r: U)
+    requires a matches Some(v) ==> f.requires((v,)),
+    ensures a is None ==> r == d, a matches Some(v) ==> f.ensures((v,), r);
+pub assume_specification<T, E, U, F: FnOnce(T) -> Result<U, E> + core::marker::Destruct> [Result::<T, E>::and_then] (a: Result<T, E>, f: F) -> (r: Result<U, E>)
+    requires a matches Ok(v) ==> f.requires((v,)),
+    ensures a matches Err(e) ==> r == Err::<U, E>(e), a matches Ok(v) ==> f.ensures((v,), r);
+pub assume_specification<T: core::marker::Destruct, E: core::marker::Destruct> [Result::<T, E>::unwrap_or] (a: Result<T, E>, d: T) -> (r: T)
+    ensures r == (match a { Ok(v) => v, Err(_) => d });
+pub assume_specification<T, E, F: FnOnce(E) -> T + core::marker::Destruct> [Result::<T, E>::unwrap_or_else] (a: Result<T, E>, f: F) -> (r: T)
+    requires a matches Err(e) ==> f.requires((e,)),
+    ensures a matches Ok(v) ==> r == v, a matches Err(e) ==> f.ensures((e,), r);
+pub assume_specification<T: core::marker::Destruct, E: core::marker::Destruct, F: FnOnce(T) -> bool + core::marker::Destruct> [Result::<T, E>::is_ok_and] (a: Result<T, E>, f: F) -> (r: bool)
+    requires a matches Ok(v) ==> f.requires((v,)),
+    ensures a is Err ==> !r, a matches Ok(v) ==> f.ensures((v,), r);
+pub assume_specification<T: Ord + core::marker::Destruct> [std::cmp::max] (a: T, b: T) -> (r: T)
+    ensures T::obeys_cmp_spec() ==> r == (if a.cmp_spec(&b) == Ordering::Greater { a } else { b });
+
+// ---------------------------------------------------------------- further accessors used in validation.rs
+impl Validity {
+    #[verifier::external_body]
+    pub fn not_before(self) -> (r: Time) { unimplemented!() }
+}
+impl Cert {
+    #[verifier::external_body]
+    pub fn tal(&self) -> (r: &Arc<TalInfo>) { unimplemented!() }
+}
+impl ResourceCert {
+    #[verifier::external_body]
+    pub fn as_resources(&self) -> (r: &AsResources) { unimplemented!() }
+    #[verifier::external_body]
+    pub fn subject_key_identifier(&self) -> (r: KeyIdentifier) { unimplemented!() }
+}
+impl Prefix {
+    #[verifier::external_body]
+    pub fn is_v6(self) -> (r: bool) ensures r == !self.is_v4_spec() { unimplemented!() }
+}
+impl MaxLenPrefix {
+    #[verifier::external_body]
+    pub fn is_v4(self) -> (r: bool) ensures r == self.prefix_spec().is_v4_spec() { unimplemented!() }
+    #[verifier::external_body]
+    pub fn prefix_len(self) -> (r: u8) ensures r == self.prefix_spec().len_spec() { unimplemented!() }
+    #[verifier::external_body]
+    pub fn max_len(self) -> (r: Option<u8>) { unimplemented!() }
+    #[verifier::external_body]
+    pub fn resolved_max_len(self) -> (r: u8) { unimplemented!() }
+}
+impl<T> SegQueue<T> {
+    #[verifier::external_body]
+    pub fn pop(&self) -> (r: Option<T>) { unimplemented!() }
+    #[verifier::external_body]
+    pub fn is_empty(&self) -> (r: bool) { unimplemented!() }
+}
+impl Clone for Asn {
+    #[verifier::external_body]
+    fn clone(&self) -> (r: Asn) ensures r == *self { unimplemented!() }
+}
+impl Copy for Asn {}
